@@ -49,5 +49,4 @@ SPEC = dict(
         "the round trip is stated for real peers: 0 < pid < 2^31, uid != 2^32-1, socket path without `;` (the listener's own address)",
         "routing (which Command a URL reaches) is gorilla/mux and not part of the property's model",
     ],
-    disabled="under construction",
 )
